@@ -211,6 +211,67 @@ func isFresh(v ssa.Value) bool {
 	return ok
 }
 
+// publishedBefore returns the instruction that hands the freshly allocated scope `base` to somebody else (stores the pointer,
+// boxes it in an interface, passes it to a call other than its own mutex) and can run before `at`; nil when `at` still has
+// the object to itself.
+func (m *envModel) publishedBefore(base ssa.Value, at ssa.Instruction) ssa.Instruction {
+	al, ok := base.(*ssa.Alloc)
+	if !ok || al.Referrers() == nil {
+		return nil
+	}
+	var best ssa.Instruction
+	for _, u := range *al.Referrers() {
+		esc := false
+		switch x := u.(type) {
+		case *ssa.Store:
+			esc = x.Val == ssa.Value(al)
+		case *ssa.MakeInterface, *ssa.ChangeType, *ssa.Convert:
+			esc = true
+		case ssa.CallInstruction:
+			if b, _ := m.mutexOp(x.Common()); b != nil {
+				continue
+			}
+			for _, a := range x.Common().Args {
+				if a == ssa.Value(al) {
+					esc = true
+				}
+			}
+			if _, isGo := x.(*ssa.Go); isGo {
+				esc = true
+			}
+		case *ssa.MakeClosure:
+			esc = true
+		}
+		if !esc || u == at {
+			continue
+		}
+		before := false
+		if u.Block() == at.Block() {
+			before = instrIndex(u) < instrIndex(at)
+			if !before {
+				// later in the same block: precedes only around a loop
+				before = reachable(u.Block(), nil)[u.Block()] && blockInCycle(u.Block())
+			}
+		} else {
+			before = reachable(u.Block(), nil)[at.Block()]
+		}
+		if before && (best == nil || instrPos(u) < instrPos(best)) {
+			best = u
+		}
+	}
+	return best
+}
+
+// blockInCycle reports whether b can reach itself.
+func blockInCycle(b *ssa.BasicBlock) bool {
+	for _, s := range b.Succs {
+		if s == b || reachable(s, nil)[b] {
+			return true
+		}
+	}
+	return false
+}
+
 // lockset runs the forward dataflow and returns the state before every instruction.
 func (m *envModel) lockset(fn *ssa.Function, r *Report, rule string) map[ssa.Instruction]lockState {
 	before := map[ssa.Instruction]lockState{}
@@ -351,6 +412,26 @@ func checkC13(p *Program, r *Report) {
 	}
 	fns := SrcFuncs(m.sp)
 	locksNotCopied(p, r, fns, "C13.R6")
+	// R7: what a table holds is replaced under the lock, never written in place: the lookups hand the stored reflect.Value out
+	// and their callers read it (Interface, IsValid) after the lock is released, and Copy duplicates the handles
+	r.Explain("R7 package env never writes the storage behind a stored value (no reflect.Value.Set*): the lookups return the stored handle and it is read after the lock is released, and a copy holds the same handles.")
+	nSet := 0
+	for _, fn := range fns {
+		for _, b := range fn.Blocks {
+			for _, in := range b.Instrs {
+				if c, ok := in.(*ssa.Call); ok {
+					if rm := reflectMethod(c); strings.HasPrefix(rm, "Set") {
+						nSet++
+						r.Fail("C13.R7", fmt.Sprintf("%s|in-place write #%d", funcName(fn), nSet), p.Pos(c.Pos()),
+							"package env calls reflect.Value."+rm+": the storage behind a binding is written in place; readers that obtained the same handle under the lock read it after releasing it (Get, GetValue, the copy of a scope), so this write races with them and shows through every copy")
+					}
+				}
+			}
+		}
+	}
+	if nSet == 0 {
+		r.OK("C13.R7", "bindings|replaced under the lock, never written in place", "env", "no reflect.Value.Set* call in package env")
+	}
 	// summaries: which methods lock their receiver (directly or through calls on the receiver)
 	locksRecv := map[*ssa.Function]bool{}
 	for changed := true; changed; {
@@ -405,6 +486,13 @@ func checkC13(p *Program, r *Report) {
 		count := map[string]int{}
 		for _, a := range accs {
 			if isFresh(a.base) {
+				if pub := m.publishedBefore(a.base, a.in); pub != nil && !strings.Contains(a.what, "escape") {
+					nAcc++
+					if st := before[a.in][a.base]; (a.write && st.mode != lkW) || (!a.write && st.mode == lkUnlocked) {
+						r.Fail("C13.R1", fmt.Sprintf("%s|%s %s after the new scope was handed on", fname, a.what, m.tables[a.field]), p.Pos(instrPos(a.in)),
+							fmt.Sprintf("the scope allocated here is handed to other code at %s and its %s table is accessed afterwards without its lock: from that point it is shared like any other scope", p.Pos(instrPos(pub)), m.tables[a.field]))
+					}
+				}
 				continue
 			}
 			nAcc++
